@@ -629,7 +629,15 @@ func main() {
 		g.big()
 		g.extended(*n)
 		g.random(*n / 4)
-		finish(g.cases, *out)
+		nshard := finish(g.cases, *out)
+		lims := genLim(g.r, *n/4, g.cases)
+		writeLimShards(*out, nshard, lims)
+		jf, _ := os.OpenFile(filepath.Join(*out, "cases.jsonl"), os.O_APPEND|os.O_WRONLY, 0o644)
+		for _, c := range lims {
+			b, _ := json.Marshal(c)
+			jf.Write(append(b, '\n'))
+		}
+		jf.Close()
 	case "replay":
 		data, err := os.ReadFile(*casef)
 		if err != nil {
@@ -638,6 +646,19 @@ func main() {
 		}
 		if *prop == "C06" {
 			replayC06(data, *out)
+			return
+		}
+		var lw struct {
+			Case lcase `json:"case"`
+		}
+		if json.Unmarshal(data, &lw) == nil && strings.HasPrefix(lw.Case.Kind, "lim/") {
+			lc := lw.Case
+			lc.Passes = limPasses(decodeInput(lc.Input))
+			writeLimShards(*out, 0, []*lcase{&lc})
+			jf, _ := os.Create(filepath.Join(*out, "cases.jsonl"))
+			b, _ := json.Marshal(&lc)
+			jf.Write(append(b, '\n'))
+			jf.Close()
 			return
 		}
 		var c wcase
@@ -657,7 +678,7 @@ func main() {
 
 const shardSize = 300
 
-func finish(cases []*wcase, out string) {
+func finish(cases []*wcase, out string) int {
 	classes := map[string]int{}
 	kinds := map[string]int{}
 	sizes := map[string]int{}
@@ -734,6 +755,7 @@ func finish(cases []*wcase, out string) {
 	}
 	b, _ := json.MarshalIndent(meta, "", " ")
 	os.WriteFile(filepath.Join(out, "meta.json"), b, 0o644)
+	return nshard
 }
 
 func bitlen(v uint32) int {
